@@ -1073,6 +1073,10 @@ class _Normalise(ast.NodeTransformer):
             if comp is not None:
                 stmts = stmts[:i] + [comp] + stmts[i + 2:]
                 continue
+            dr = self._deferred_raise(st, stmts[i + 1:i + 3])
+            if dr is not None:
+                stmts = stmts[:i] + dr[0] + stmts[i + dr[1]:]
+                continue
             ta = self._split_tuple_assign(st)
             if ta is not None:
                 stmts = stmts[:i] + ta + stmts[i + 1:]
@@ -1101,6 +1105,69 @@ class _Normalise(ast.NodeTransformer):
             out.append(st)
             i += 1
         return out
+
+    @staticmethod
+    def _deferred_raise(st, following):
+        """`err = None` / `if c1: err = E1 elif c2: err = E2 ... [else: nested checks]` / `if err is not None: raise X(err)`
+        ->  the same tree of checks with every `err = E` replaced by `raise X(E)`   (a "single exit" spelling of a chain of checks)"""
+        if isinstance(st, ast.Assign) and len(st.targets) == 1:
+            tgt, val = st.targets[0], st.value
+        elif isinstance(st, ast.AnnAssign):
+            tgt, val = st.target, st.value
+        else:
+            return None
+        if not (isinstance(tgt, ast.Name) and isinstance(val, ast.Constant) and val.value is None and len(following) == 2):
+            return None
+        name = tgt.id
+        chain, final = following
+        if not (isinstance(chain, ast.If) and isinstance(final, ast.If) and not final.orelse and len(final.body) == 1 and isinstance(final.body[0], ast.Raise)):
+            return None
+        t = final.test
+        if not (isinstance(t, ast.Compare) and len(t.ops) == 1 and isinstance(t.ops[0], (ast.IsNot, ast.NotEq)) and isinstance(t.left, ast.Name) and t.left.id == name and isinstance(t.comparators[0], ast.Constant) and t.comparators[0].value is None) and not (isinstance(t, ast.Name) and t.id == name):
+            return None
+        rs = final.body[0]
+        if len([x for x in ast.walk(rs) if isinstance(x, ast.Name) and x.id == name]) != 1:
+            return None
+        # inside the chain the name may only be assigned, as the last statement of a block, and never read
+        for x in ast.walk(chain):
+            if isinstance(x, ast.Name) and x.id == name and isinstance(x.ctx, ast.Load):
+                return None
+            if isinstance(x, (ast.For, ast.While, ast.Try, ast.With, ast.Return)):
+                return None
+        ok = [True]
+
+        def conv(block):
+            out = []
+            for k, s_ in enumerate(block):
+                is_set = isinstance(s_, (ast.Assign, ast.AnnAssign)) and isinstance((s_.targets[0] if isinstance(s_, ast.Assign) else s_.target), ast.Name) and (s_.targets[0] if isinstance(s_, ast.Assign) else s_.target).id == name
+                if is_set:
+                    if k != len(block) - 1 or s_.value is None:
+                        ok[0] = False
+                        return block
+                    r = copy.deepcopy(rs)
+                    v = s_.value
+
+                    class S(ast.NodeTransformer):
+                        def visit_Name(s2, node):
+                            return copy.deepcopy(v) if node.id == name else node
+
+                    r = S().visit(r)
+                    ast.copy_location(r, s_)
+                    out.append(r)
+                elif isinstance(s_, ast.If):
+                    s_.body = conv(s_.body)
+                    s_.orelse = conv(s_.orelse) if s_.orelse else []
+                    out.append(s_)
+                else:
+                    out.append(s_)
+            return out
+
+        new = conv([chain])
+        if not ok[0]:
+            return None
+        for n_ in new:
+            ast.fix_missing_locations(n_)
+        return new, 3
 
     @staticmethod
     def _split_tuple_assign(st):
